@@ -651,6 +651,21 @@ static Plan gen_plan(const string &cfg, uint64_t seed, long long index) {
         static const int CT2[] = { 511, 512, 513, 514, 600, 768, 1000, 1023, 1024 };     // the build with a thread table of 1025
         p.nthreads = rt::MAXT > 600 ? CT2[sim_below(&w, 9)] : CT[sim_below(&w, 11)];
         if (p.nthreads > rt::MAXT - 1) p.nthreads = rt::MAXT - 1;
+        if (rt::MAXT <= 600 && sim_below(&w, 5) == 0) {
+            // lock-step sweep: a thread pool working through ONE list - every thread looks up the same 20-60 known labels in the same
+            // order under a fine round-robin, so all of them meet every new label at the same moment (whatever is inserted
+            // "once per label" is inserted once per thread; tables sized for the number of labels fill up)
+            int nt2 = 0; while (tld_list[nt2].domain) nt2++;
+            int K = 20 + (int)sim_below(&w, 41); int st = (int)sim_below(&w, (uint64_t)nt2);
+            vector<string> keys; for (int i = 0; i < K; i++) keys.push_back(string("u@h.") + tld_list[(st + i * 13) % nt2].domain);
+            bool viaemail = sim_below(&w, 3) == 0;
+            for (int t = 0; t < p.nthreads; t++) {
+                if (viaemail) { Op a; a.t = t; a.k = SET_RFC; a.v = 1; p.ops.push_back(a); Op b; b.t = t; b.k = SETUP; p.ops.push_back(b); }
+                for (auto &x : keys) { Op o; o.t = t; o.k = viaemail ? IS_EMAIL : TLD; o.a = x; p.ops.push_back(o); }
+            }
+            p.sched_seed = sim_next(&s); p.policy = 2; p.quantum = 1 + sim_below(&s, 2);
+            return p;
+        }
         // the crowd works on labels of ONE length L: a valid TLD t, other valid TLDs of that length, an unknown label of that
         // length and an unknown extension of t - whatever per-length or per-prefix shortcut the lookup has, everybody is in it
         vector<string> pool;
